@@ -276,6 +276,17 @@ def check_rec(ctx, rep):
     rep.rule('R-C03-2', 'raid_rec/raid_data over the real kernels restore every failed block to its true value and write nothing else (per family, matrix, nd, np, failure set; all data, all sizes k*64)', 300)
     rep.rule('R-C03-2f', 'every decoder any slot can hold belongs to a verified family', 9)
     recs, named = families_from_slots(P)
+    # slot arity: raid_rec dispatches through raid_rec_ptr[nr - 1]; slot 0 must hold a one-failure kernel, slot 1 a two-failure
+    # kernel, slots 2..5 the general kernel of the same family (the families are interpreted with exactly this assignment)
+    rep.rule('R-C03-2s', 'raid_init installs in decoder slot k only kernels written for k+1 failures (rec1 / rec2 / recX of a verified family)', 6)
+    slots_ = P.slots()
+    for k in range(6):
+        inst = slots_.get('g:raid_rec_ptr+%d' % (8 * k), set()) | (slots_.get('g:raid_rec_ptr', set()) if k == 0 else set())
+        want = {fam['rec'][min(k, 2)] for fam in FAMILIES.values()}
+        bad_ = sorted(inst - want)
+        rep.check(bool(inst) and not bad_, 'R-C03-2s', 'raid_rec_ptr[%d] (recovery of %d failed blocks)' % (k, k + 1), 'raid/module.c',
+                  'installable: %s' % sorted(inst) if not bad_ else 'slot %d can hold %s, a kernel written for another number of failed blocks: raid_rec with %d failures runs it' % (k, bad_, k + 1),
+                  function='raid_init', construct='decoder slot %d' % k)
     for r in sorted(recs):
         rep.check(r in named, 'R-C03-2f', r, P.functions[r].file if r in P.functions else '?', 'decoder installed by raid_init is covered by a family' if r in named else 'decoder is installable but not covered by any verified family', function=r, construct='family')
         rep.analysed(r)
@@ -445,6 +456,48 @@ def _ctask(t):
     return out
 
 
+def check_scan(ctx, rep):
+    """raid_scan: the search over candidate failure sets is integer-only code around raid_check.  It is interpreted with raid_check
+    replaced by its verified meaning (R-C03-4: accepted iff every corrupted block is listed) for every geometry nd 1..3, np 1..4 and
+    every true failure set: with fewer than np corrupted blocks it returns exactly that set, otherwise it reports no solution"""
+    from .. import region as RG
+    P = ctx.prog
+    rep.rule('R-C03-5', 'raid_scan returns exactly the corrupted set (size < np) for every geometry nd<=3, np<=4 and every true failure set; -1 when np or more blocks are corrupted', 100)
+    f = P.fn('raid_scan')
+    rep.analysed(f)
+    import itertools
+    for nd in (1, 2, 3):
+        for np_ in (1, 2, 3, 4):
+            n = nd + np_
+            for k in range(0, np_ + 1):
+                for bad in itertools.combinations(range(n), k):
+                    def ext(ins, args, bad=bad):
+                        if ins.callee == 'raid_check':
+                            r_, irp = args[0], args[1]
+                            listed = set()
+                            for j in range(RG.signed(r_ & 0xffffffff, 32)):
+                                listed.add(RG.signed(R.mem[(irp.reg, irp.off + 4 * j)] & 0xffffffff, 32))
+                            return (0 if set(bad) <= listed else 0xffffffff,)
+                        if ins.callee in ('__assert_fail',):
+                            raise RG.Unsupported('assertion failed inside raid_scan')
+                        return None
+                    R = RG.Region(P, extern=ext)
+                    ir = R.array('ir', [0x7fffffff] * 8, 4)
+                    try:
+                        rv = R.run(f, 0, [ir, nd, np_, 64, RG.P_(('obj', 'v'), 0)])
+                    except RG.Unsupported as e:
+                        raise AnalysisBroken('cannot interpret raid_scan: %s' % e)
+                    rv = RG.signed(rv & 0xffffffff, 32)
+                    if k < np_:
+                        got = [RG.signed(R.mem[(ir.reg, 4 * j)] & 0xffffffff, 32) for j in range(max(rv, 0))]
+                        ok = rv == k and got == list(bad)
+                        det = 'returns %d with %s' % (rv, got)
+                    else:
+                        ok = rv == -1
+                        det = 'returns %d' % rv
+                    rep.check(ok, 'R-C03-5', 'nd=%d np=%d corrupted=%s' % (nd, np_, list(bad)), f.file, det if ok else det + ' (expected %s)' % ('%d with %s' % (k, list(bad)) if k < np_ else '-1'), function='raid_scan', construct='scan result')
+
+
 def run(ctx, rep):
     rep.level = 'proof'
     rep.trusted_base = ['extended Cauchy determinant identity (Roth, Introduction to Coding Theory) for minors of order > 3 (quick) / > 3 (thorough: order 3 also exhaustive)',
@@ -458,3 +511,4 @@ def run(ctx, rep):
     check_minors(ctx, rep)
     check_rec(ctx, rep)
     check_consistency(ctx, rep)
+    check_scan(ctx, rep)
